@@ -359,6 +359,34 @@ fn special_programs() -> Vec<(&'static str, Prog, &'static str, bool)> {
         "100 1 object(..=5) 6 6\n",
         true,
     ));
+    // every activation gets fresh locals (null), also when an earlier activation of the same size wrote
+    // them; a `get local` of a slot that was never set reads null
+    v.push((
+        "fresh-frame-locals",
+        Prog {
+            consts: vec![
+                s("f"),
+                s("skip"),
+                Const::Int(41),
+                s("acc=~ "),
+                // f(flag): if flag then local1 <- 41; print local1
+                Const::Method {
+                    name: 0,
+                    arity: 1,
+                    locals: 2,
+                    code: vec![Ins::GetLocal(0), Ins::Branch(1), Ins::GetLocal(1), Ins::Print(3, 1), Ins::Return, Ins::Label(1), Ins::Lit(2), Ins::SetLocal(1), Ins::SetLocal(2), Ins::Print(3, 1), Ins::Return],
+                },
+                Const::Bool(true),
+                Const::Bool(false),
+                s("main"),
+                Const::Method { name: 7, arity: 0, locals: 0, code: vec![Ins::Lit(5), Ins::Call(0, 1), Ins::Drop, Ins::Lit(6), Ins::Call(0, 1), Ins::Drop, Ins::Lit(5), Ins::Call(0, 1), Ins::Drop, Ins::Lit(6), Ins::Call(0, 1)] },
+            ],
+            globals: vec![4],
+            entry: 8,
+        },
+        "acc=41 acc=null acc=41 acc=null ",
+        true,
+    ));
     // one Method constant used both as a global function and as a class member; `return` in the
     // middle of a method; operands pending on the stack across calls; a parameter slot assigned
     v.push((
@@ -748,7 +776,29 @@ fn c08_schedule(rep: &mut Report, origin: &str, p: &crate::bytecode::program::Pr
 }
 
 pub fn c08(ctx: &Ctx, rep: &mut Report) {
-    if let Some(r) = &ctx.replay {
+    let replay_cli = ctx.replay.as_ref().map(|r| r.get("via").is_some()).unwrap_or(false);
+    if let (Some(r), false) = (&ctx.replay, replay_cli) {
+        if let Some(b) = r.get("prog_b64").and_then(|s| s.as_str()).filter(|s| !s.is_empty()) {
+            if let Ok(prog) = bcfmt::read(&unb64(b)) {
+                if let Ok(p) = conv::program_from_prog(&prog, &prog.method_indices()) {
+                    if let Ok(baseline) = real::serialize(&p) {
+                        let probe = Sink::new(Fault::None);
+                        let _ = serialize_into(&p, &probe, &Path::Direct);
+                        let calls = probe.n_calls();
+                        for k in [1usize, 2, 3, 4, 7, 16, 64, 1024].iter() {
+                            c08_schedule(rep, "replay", &p, &baseline, Fault::Limit(*k), Path::Direct, r);
+                            c08_schedule(rep, "replay", &p, &baseline, Fault::Limit(*k), Path::NamedSink, r);
+                        }
+                        for c in 0..calls.min(4000) {
+                            c08_schedule(rep, "replay", &p, &baseline, Fault::ShortAt(c), if c % 2 == 0 { Path::Direct } else { Path::NamedSink }, r);
+                            c08_schedule(rep, "replay", &p, &baseline, Fault::ZeroAt(c), Path::Direct, r);
+                            c08_schedule(rep, "replay", &p, &baseline, Fault::OneByteAt(c), Path::Direct, r);
+                        }
+                    }
+                }
+            }
+            return;
+        }
         if let Some(src) = r.get("src").and_then(|s| s.as_str()) {
             if let Ok(ast) = real::parse(src) {
                 if let Ok(p) = real::compile(&ast) {
@@ -763,7 +813,7 @@ pub fn c08(ctx: &Ctx, rep: &mut Report) {
         }
         return;
     }
-    let n = ctx.share(1_200, 20_000);
+    let n = if replay_cli { 0 } else { ctx.share(1_200, 20_000) };
     for i in 0..n {
         if ctx.out_of_time() && i > n / 4 {
             rep.notes.push(format!("time budget reached after {} of {} programs", i, n));
@@ -785,7 +835,7 @@ pub fn c08(ctx: &Ctx, rep: &mut Report) {
         };
         let replay = {
             let prog = conv::prog_from_program(&p).ok().map(|x| x.0);
-            json!({"check":"C08","origin":origin,"prog_b64": match prog { Some(pr) if baseline.len() < 8000 => b64(&bcfmt::write(&pr)), _ => String::new() }, "program_index": i})
+            json!({"check":"C08","origin":origin,"prog_b64": match prog { Some(pr) if baseline.len() < 300_000 => b64(&bcfmt::write(&pr)), _ => String::new() }, "program_index": i})
         };
         // how many write calls does a plain sink see?
         let probe = Sink::new(Fault::None);
@@ -870,6 +920,21 @@ pub fn c08(ctx: &Ctx, rep: &mut Report) {
             ("compile | reader", cli::run(cli::Spec::new(&["compile", jf.to_str().unwrap()]))),
             ("compile | slow reader", cli::run_slow_drain(cli::Spec::new(&["compile", jf.to_str().unwrap()]), 1 + rng.below(4000), std::time::Duration::from_micros(200))),
         ];
+        // the same redirect typed at an interactive shell: stdin (and stderr) are a terminal. `script`
+        // provides the pseudo-terminal; the redirect happens inside it.
+        let mut runs = runs;
+        if i % 4 == 0 && std::path::Path::new("/usr/bin/script").exists() {
+            let tf = dir.join(format!("p{}.tty.bc", i));
+            let inner = format!("'{}' compile '{}' > '{}'", std::env::current_exe().unwrap().display(), jf.display(), tf.display());
+            let s = cli::run(cli::Spec::new(&["-q", "-e", "-c", &inner, "/dev/null"]).exe(std::path::Path::new("/usr/bin/script")));
+            if s.spawn_error.is_none() && !s.timed_out {
+                let got = std::fs::read(&tf).unwrap_or_default();
+                let mut r = s.clone();
+                r.stdout = got;
+                runs.push(("compile > file, terminal on stdin", r));
+            }
+            let _ = std::fs::remove_file(&tf);
+        }
         for (how, r) in runs {
             rep.evaluations += 1;
             if r.timed_out || r.spawn_error.is_some() {
